@@ -444,10 +444,10 @@ class Check(core.PropertyCheck):
         yield from self._from_behaviours(behs, rng, not ctx.quick, "model")
         # deeper behaviours of the same model: more requests, the larger destination sets (tlc -simulate)
         behs2, _r = ctx.simulate(self.MODEL, self._consts(big=True, max_req=5, max_close=2, max_set=2),
-                                 num=250 if ctx.quick else 6000, depth=22 if ctx.quick else 36)
+                                 num=250 if ctx.quick else 3000, depth=22 if ctx.quick else 36)
         yield from self._from_behaviours(behs2, rng, True, "simulate")
         # random driver, not bounded by the model's constants: longer histories, all destinations
-        for i in range(250 if ctx.quick else 5000):
+        for i in range(250 if ctx.quick else 3000):
             name = rng.choice(list(CONFIGS))
             yield core.Scenario({"cfg": CONFIGS[name]["cfg"], "ops": None, "config": name, "seed": rng.randrange(1 << 30),
                                  "n": rng.randint(4, 10)}, source="random")
